@@ -13,14 +13,14 @@
    subexpressions and re-associated sums do not matter); the straight-line code around the loops is compared
    by case analysis on what the two programs inspect. *)
 From Coq Require Import List ZArith NArith Bool Lia ZifyBool.
-From DV Require Import Base.PyList Model.C11_GPTree Model.C11_GenRt Proofs.C11_GenRt Gen.C11_gen.
+From DV Require Import Base.PyList Model.C11_GPTree Model.C11_GenRt Proofs.C11_Gen Proofs.C11_PySlice Proofs.C11_GenRt Gen.C11_gen.
 Import ListNotations.
 Local Open Scope Z_scope.
 
 (* ---------------------------------------------------------------------------------------------- *)
 (* tactics                                                                                          *)
 (* ---------------------------------------------------------------------------------------------- *)
-Ltac munfold := unfold bind, ret, lift, fail, raise, unbound.
+Ltac munfold := unfold bind, ret, lift, fail, raise, unbound, instantiate, eph_call, frac_ltb, terminal_ratio.
 
 (* the scrutinee a term inspects first *)
 Ltac match_head t kyes kno :=
@@ -42,7 +42,7 @@ Ltac use_eqns :=
 Ltac mleaf := first [ reflexivity | congruence | lia | repeat (f_equal; try lia); fail ].
 Ltac mcrush :=
   munfold;
-  repeat (cbv beta iota zeta; use_eqns;
+  repeat (cbv beta iota zeta; cbn [fst snd]; use_eqns;
           lazymatch goal with
           | |- ?l = ?r => first [ destruct_head l | destruct_head r ]
           end);
@@ -126,12 +126,12 @@ Ltac push_loops :=
 
 Ltac idioms :=
   unfold zarity in *; push_loops;
-  rewrite ?list_mul_single, ?getslice_tail, ?zmax_if, ?zmax_if'.
+  rewrite ?list_mul_single, ?getslice_tail, ?zmax_if, ?zmax_if', ?map_rev.
 
 (* [mcrush] with the idioms normalised wherever the case analysis exposes them *)
 Ltac mcrush' :=
   munfold;
-  repeat (cbv beta iota zeta; use_eqns; try progress idioms; munfold; cbv beta iota zeta;
+  repeat (cbv beta iota zeta; cbn [fst snd]; use_eqns; try progress idioms; munfold; cbv beta iota zeta; cbn [fst snd];
           lazymatch goal with
           | |- ?l = ?r => first [ destruct_head l | destruct_head r ]
           end);
@@ -151,4 +151,115 @@ Proof.
       [ intros; mcrush' | pose proof (for_height b Hb self [0] 0 ds) as H; cbn [rev app] in H; rewrite H ]
   end.
   rewrite height_loop2_snd. destruct (height_loop2 self [0] 0) as [[st m]|]; reflexivity.
+Qed.
+
+(* ---------------------------------------------------------------------------------------------- *)
+(* PrimitiveTree.__setitem__ with a slice key / with an integer key                                  *)
+(* ---------------------------------------------------------------------------------------------- *)
+Lemma set_nth_same {A} : forall (l : list A) k v, PyList.set_nth l k v = C11_GPTree.set_nth l k v.
+Proof. induction l as [|x r IH]; intros [|k] v; cbn; try reflexivity; now rewrite IH. Qed.
+
+Lemma setslice_obj_model (l val : list node) a b : 0 <= a -> 0 <= b -> (Z.to_nat a < length l)%nat ->
+  setslice_obj l (a, b) val = firstn (Z.to_nat a) l ++ val ++ skipn (Nat.max (Z.to_nat a) (Z.to_nat b)) l.
+Proof.
+  intros Ha Hb Hl. unfold setslice_obj, setslice. cbn [fst snd].
+  rewrite (set_slice_is_python l val (Z.to_nat a) (Z.to_nat b) Hl).
+  now rewrite !Z2Nat.id by lia.
+Qed.
+
+(* the slices searchSubtree returns have non-negative bounds: the model only covers those *)
+Lemma gen_setitem_slice_eq self key val ds : 0 <= fst key -> 0 <= snd key ->
+  gen_setitem_slice self key val ds = m_setitem_slice self key val ds.
+Proof.
+  intros Ha Hb. first [ reflexivity | idtac ].
+  destruct key as [a b]. cbn [fst snd] in Ha, Hb.
+  unfold gen_setitem_slice, m_setitem_slice, set_slice, len. cbn [fst snd].
+  destruct (Z.of_nat (length self) <=? a) eqn:E1;
+    destruct (length self <=? Z.to_nat a)%nat eqn:E2; try lia; [reflexivity|].
+  unfold bind at 1. rewrite getitem_nonneg by lia. cbn [Z.to_nat].
+  destruct val as [|v0 vr]; [reflexivity|]. cbn [nth_error]. unfold ret at 1. cbv zeta.
+  rewrite getslice_tail. cbn [tl].
+  unfold bind at 1.
+  lazymatch goal with
+  | |- context [for_each vr ?b ?t0 ds] =>
+      rewrite (for_total b); [ | intros; mcrush' ]
+  end.
+  unfold ret at 1.
+  lazymatch goal with
+  | |- context [fold_left ?f vr ?t0] => destruct (fold_left f vr t0 =? 0) eqn:E3
+  end; cbn [negb]; [|reflexivity].
+  cbv zeta. rewrite setslice_obj_model by lia. reflexivity.
+Qed.
+
+Lemma gen_setitem_item_eq self key val ds : gen_setitem_item self key val ds = m_setitem_item self key val ds.
+Proof.
+  first [ reflexivity | idtac ].
+  unfold gen_setitem_item, m_setitem_item, set_item_py, set_item, getitem, list_setitem, py_get, py_set, PyList.zlen, zlen.
+  cbv zeta. unfold bind at 1.
+  set (j := if key <? 0 then key + Z.of_nat (length self) else key).
+  destruct ((j <? 0) || (Z.of_nat (length self) <=? j)); [reflexivity|].
+  destruct (nth_error self (Z.to_nat j)) as [old|]; [|reflexivity].
+  unfold ret at 1, zarity.
+  destruct (Z.of_nat (arity val) =? Z.of_nat (arity old)) eqn:E1;
+    destruct (Nat.eqb (arity val) (arity old)) eqn:E2; try lia; cbn [negb]; [|reflexivity].
+  munfold. now rewrite set_nth_same.
+Qed.
+
+(* ---------------------------------------------------------------------------------------------- *)
+(* generate / genFull / genGrow / genHalfAndHalf                                                      *)
+(* ---------------------------------------------------------------------------------------------- *)
+Lemma gen_generate_eq ps mn mx cond t ds : (forall h, cond_mono (cond h)) ->
+  gen_generate ps mn mx cond t ds = m_generate ps mn mx cond t ds.
+Proof.
+  intro Hm. first [ reflexivity | idtac ].
+  unfold gen_generate, m_generate. cbv zeta.
+  set (t0 := match t with Some x => x | None => p_ret ps end).
+  replace (match t with None => p_ret ps | Some type_ => type_ end) with t0 by (destruct t; reflexivity).
+  apply bind_cong_ok. intros h ds1 Er. cbv zeta.
+  unfold while_draws.
+  lazymatch goal with
+  | |- bind (fun ds => while_fuel _ ?c ?b ?s ds) ?k ds1 = _ =>
+      pose proof (while_gen ps (cond h) c b) as W;
+      lazymatch type of W with
+      | ?P1 -> ?P2 -> _ =>
+          assert (Hc : P1) by (intros; reflexivity);
+          assert (Hb : P2) by (intros; mcrush');
+          specialize (W Hc Hb k); clear Hc Hb
+      end
+  end.
+  lazymatch type of W with
+  | ?P1 -> _ => assert (Hk : P1) by (intros [[? ?] ?] ?; reflexivity); specialize (W Hk (S (length ds1)) [(0, t0)] [] t0 ds1)
+  end.
+  cbn [rev app] in W. unfold bind in W |- *. rewrite W.
+  apply d_randint_ok in Er. destruct Er as [_ (d & ->)].
+  apply gen_loop_c_fuel; [apply Hm | cbn [length]; lia ..].
+Qed.
+
+(* genFull / genGrow: the nested `condition` is, pointwise, the model's condition for the mode *)
+Ltac gen_mode_equiv ps mode mn :=
+  cbv zeta; rewrite gen_generate_eq;
+  [ apply (m_generate_model' _ mode); intros; unfold condition; mcrush'
+  | intros hh; eapply cond_mono_ext; [ | apply (condition_mono ps mode mn hh) ]; intros; unfold condition; mcrush' ].
+
+Lemma gen_genFull_eq ps mn mx t ds : gen_genFull ps mn mx t ds = m_genFull ps mn mx t ds.
+Proof.
+  first [ reflexivity | idtac ].
+  unfold gen_genFull, m_genFull, gen_expr. cbn [g_kind g_min g_max]. gen_mode_equiv ps GFull mn.
+Qed.
+
+Lemma gen_genGrow_eq ps mn mx t ds : gen_genGrow ps mn mx t ds = m_genGrow ps mn mx t ds.
+Proof.
+  first [ reflexivity | idtac ].
+  unfold gen_genGrow, m_genGrow, gen_expr. cbn [g_kind g_min g_max]. gen_mode_equiv ps GGrow mn.
+Qed.
+
+Lemma gen_genHalfAndHalf_eq ps mn mx t ds : gen_genHalfAndHalf ps mn mx t ds = m_genHalfAndHalf ps mn mx t ds.
+Proof.
+  first [ reflexivity | idtac ].
+  unfold gen_genHalfAndHalf, m_genHalfAndHalf, gen_expr. cbn [g_kind g_min g_max].
+  change [gen_genGrow; gen_genFull]
+    with (map (fun m => match m with GGrow => gen_genGrow | GFull => gen_genFull end) [GGrow; GFull]).
+  unfold bind at 1. rewrite d_choice_map. unfold bind, ret.
+  destruct (d_choice [GGrow; GFull] ds) as [[m ds1]|]; [|reflexivity].
+  destruct m; [ rewrite gen_genFull_eq | rewrite gen_genGrow_eq ]; reflexivity.
 Qed.
